@@ -16,6 +16,33 @@ def replRange : Step → Option (Nat × Nat × Slice)
   | .replaceAround f t _ _ s _ _ => some (f, t, s)
   | _ => none
 
+/-- `alignedAt` of Proofs/TokCore.lean (the offset does not fall between the halves of a surrogate pair), copied: the
+    driver does not import `Proofs/`.  Used for counting how often hypothesis `hdbal` of
+    `commute_succeeds_around_gap` holds, not compared with the real code. -/
+def alignedAtD : List Node → Nat → Bool
+  | [], _ => true
+  | n :: ns, pos =>
+    if pos = 0 then true
+    else if n.size ≤ pos then alignedAtD ns (pos - n.size)
+    else match n with
+      | .text s _ => splitOk s pos
+      | .elem _ _ _ kids => alignedAtD kids (pos - 1)
+      | .leaf .. => true
+
+/-- the same for a step applied to `d`: a mark step counts as the replace of its range by the re-marked slice
+    (`markStep_as_replace`), whose open depths are those of `d.slice from to` -/
+def replRangeIn (d : Node) : Step → Option (Nat × Nat × Slice)
+  | .addMark f t _ => match d.slice f t with
+    | .ok old => some (f, t, old)
+    | .error _ => none
+  | .removeMark f t _ => match d.slice f t with
+    | .ok old => some (f, t, old)
+    | .error _ => none
+  | .addNodeMark pos _ => some (pos, pos + 1, ⟨[], 0, 0⟩)
+  | .removeNodeMark pos _ => some (pos, pos + 1, ⟨[], 0, 0⟩)
+  | .attr pos _ _ => some (pos, pos + 1, ⟨[], 0, 0⟩)
+  | s => replRange s
+
 def handleCommute (st : St) (op : String) (j : Json) : Option (D (St × Json)) :=
   match op with
   | "commuteGuard" => some do
@@ -23,7 +50,7 @@ def handleCommute (st : St) (op : String) (j : Json) : Option (D (St × Json)) :
     let d ← node (← field j "doc")
     let a ← step (← field j "a")
     let b ← step (← field j "b")
-    match replRange a, replRange b with
+    match replRangeIn d a, replRangeIn d b with
     | some (f1, t1, s1), some (f2, t2, s2) =>
       let e1 := depthAt d.kids f1 - s1.openStart
       let e2 := depthAt d.kids f2 - s2.openStart
@@ -35,9 +62,16 @@ def handleCommute (st : St) (op : String) (j : Json) : Option (D (St × Json)) :
     let d ← node (← field j "doc")
     let a ← step (← field j "a")
     let b ← step (← field j "b")
-    match a, replRange b with
-    | .replaceAround _ _ gf gt _ _ _, some (f1, t1, s1) =>
-      return (st, ok (Json.bool (gapGuard d.kids gf gt f1 t1 s1)))
+    match a, replRangeIn d b with
+    | .replaceAround f _ gf gt sl _ _, some (f1, t1, s1) =>
+      -- [guard, `hcl`: the replace-around step's slice is closed, `hdbal`: both ends of the filled slice are
+      --  pair-aligned in the document after the replace-around step (null if it does not apply)]
+      let S ← getSchema st j
+      let al : Json := match S.apply a d with
+        | .ok db => Json.bool (alignedAtD db.kids f && alignedAtD db.kids (f + sl.size.toNat + (gt - gf)))
+        | .error _ => Json.null
+      return (st, ok (Json.arr #[Json.bool (gapGuard d.kids gf gt f1 t1 s1),
+        Json.bool (sl.openStart == 0 && sl.openEnd == 0), al]))
     | _, _ => return (st, ok Json.null)
   | "aroundShape" => some do
     match (← step (← field j "step")) with
